@@ -297,7 +297,12 @@ def run_misc(case, ctx, g):
             mneg = case['seed'] % 3 == 1
             if mneg:
                 ctx.count('mprod/negative-mode-index')
-            res = ctx.lib('mprod(list)', lambda t, a, m: t.mprod(a, m), x, mats, [m_ - d if (mneg and j_ % 2 == 0) else m_ for j_, m_ in enumerate(modes)])
+            passed = [m_ - d if (mneg and j_ % 2 == 0) else m_ for j_, m_ in enumerate(modes)]
+            before = list(passed)
+            res = ctx.lib('mprod(list)', lambda t, a, m: t.mprod(a, m), x, mats, passed)
+            if passed != before:
+                # the caller's list of modes is an argument, not scratch space: written-back normalised indices mean another tensor order next time
+                ctx.viol(key + '/clause=callers-mode-list-modified', '%s: list passed as %s is %s after the call' % (what, before, passed))
         want_ttm = False
     elif op == 'to_ttm':
         x = gens.make_tt(N, R, dt, case['vals'], g)
